@@ -3,7 +3,7 @@
 //! graaf operations inside it spawn shuttle tasks through the seam.
 
 use crate::sched::{ExecLog, SchedKind, SchedSpec, SimScheduler, OP_RETURNED};
-use graaf::verif_seam::{set_parallelism, Parallelism};
+use graaf::verif_seam::{extra_preemption_points, set_extra_preemption, set_parallelism, Parallelism};
 use serde::{Deserialize, Serialize};
 use std::num::NonZero;
 use std::panic::{catch_unwind, AssertUnwindSafe};
@@ -96,11 +96,15 @@ where
     // executions nest (a lane's run is itself the main task of an ambient execution): restore what the
     // enclosing execution simulates when this one is over
     let outer_par = set_parallelism(Parallelism::Std);
+    let hold = conf.sched.hold;
+    let outer_hold = set_extra_preemption(false);
+    let points_before = extra_preemption_points();
     OP_RETURNED.with(|c| c.set(false));
     let runner = shuttle::Runner::new(scheduler, cfg);
     let res = catch_unwind(AssertUnwindSafe(move || {
         let _ = runner.run(move || {
             let _ = set_parallelism(par);
+            let _ = set_extra_preemption(hold);
             OP_RETURNED.with(|c| c.set(false));
             let r = f();
             OP_RETURNED.with(|c| c.set(true));
@@ -109,6 +113,7 @@ where
     }));
     OP_RETURNED.with(|c| c.set(false));
     let _ = set_parallelism(outer_par);
+    let _ = set_extra_preemption(outer_hold);
     let failure = match res {
         Ok(()) => None,
         Err(p) => {
@@ -124,7 +129,8 @@ where
         }
     };
     let value = slot.lock().unwrap_or_else(std::sync::PoisonError::into_inner).take();
-    let log = log.lock().unwrap_or_else(std::sync::PoisonError::into_inner).clone();
+    let mut log = log.lock().unwrap_or_else(std::sync::PoisonError::into_inner).clone();
+    log.extra_points = extra_preemption_points() - points_before;
     ExecReport { value, failure, log }
 }
 
@@ -153,7 +159,7 @@ pub fn ambient_conf(scenario_digest: u64) -> Conf {
         6 => SchedKind::RoundRobin,
         _ => SchedKind::NewestFirst,
     };
-    Conf { cpu, sched: SchedSpec { kind, seed }, trace: None }
+    Conf { cpu, sched: SchedSpec { kind, seed, hold: crate::sched::hold_for_seed(seed) }, trace: None }
 }
 
 /// Call `f` with the simulated CPU count `cpu` (inside the ambient execution, which schedules whatever
@@ -178,16 +184,21 @@ pub fn run_ambient<R: Send + 'static>(conf: &Conf, f: impl FnOnce() -> R + Send 
     let slot2 = Arc::clone(&slot);
     let par = cpu_to_parallelism(conf.cpu);
     let outer_par = set_parallelism(Parallelism::Std);
+    let hold = conf.sched.hold;
+    let outer_hold = set_extra_preemption(false);
+    let points_before = extra_preemption_points();
     let runner = shuttle::Runner::new(scheduler, cfg);
     let res = catch_unwind(AssertUnwindSafe(move || {
         let _ = runner.run(move || {
             let _ = set_parallelism(par);
+            let _ = set_extra_preemption(hold);
             let f = cell.lock().unwrap().take().expect("the ambient execution runs once");
             let r = f();
             *slot2.lock().unwrap() = Some(r);
         });
     }));
     let _ = set_parallelism(outer_par);
+    let _ = set_extra_preemption(outer_hold);
     let failure = match res {
         Ok(()) => None,
         Err(p) => {
@@ -203,6 +214,7 @@ pub fn run_ambient<R: Send + 'static>(conf: &Conf, f: impl FnOnce() -> R + Send 
         }
     };
     let value = slot.lock().unwrap_or_else(std::sync::PoisonError::into_inner).take();
-    let log = log.lock().unwrap_or_else(std::sync::PoisonError::into_inner).clone();
+    let mut log = log.lock().unwrap_or_else(std::sync::PoisonError::into_inner).clone();
+    log.extra_points = extra_preemption_points() - points_before;
     ExecReport { value, failure, log }
 }
